@@ -73,7 +73,7 @@ impl Prop for C09 {
     fn rule(&self) -> String {
         "per untrusted-input surface, under catch_unwind with overflow checks and debug assertions on: AEAD ciphertexts of every length 0..64 and 1 KiB; Noise handshake messages of every length 0..200, 65535, 65536 \
          (random, and prefixes / bit flips of a valid message); key-mode and password-mode files = every prefix of valid files, single-bit flips, hostile length and flag fields, wrong magics, appended bytes, random bytes; \
-         encoded public / private key strings over {base64 alphabet, padding, whitespace, UTF-8} with lengths 0..130; keyring texts; heap peak while rejecting hostile length fields; the real binary with every argument vector of length <= 2 over a 40-word vocabulary (commands, aliases, options in all spellings, values, oddities) and seeded longer vectors, in a world with files, environment and piped stdin but no terminal: exit status 0 or 1, an Error: line iff 1, no signal, no hang, and the same exit status and files as the Lean CLI model. \
+         encoded public / private key strings over {base64 alphabet, padding, whitespace, UTF-8} with lengths 0..130; keyring texts; heap peak while rejecting hostile length fields; the real binary with every argument vector of length <= 2 over a 40-word vocabulary (commands, aliases, options in all spellings, values, oddities) and seeded longer vectors, in a world with files, environment and piped stdin but no terminal: exit status 0 or 1, an Error: line iff 1, no signal, no hang, and the same exit status and files as the Lean CLI model; and the commands that take a password run with a terminal on standard input (a pseudo-terminal nobody types on) and a wrong or unset KESTREL_PASSWORD: they must terminate with exit 1. \
          compared: result class (ok | err | crash) of the implementation vs the Lean model; non-trivial = distinct (surface, length / mutation kind, outcome)".into()
     }
     fn cases(&self, tier: &str, seed: u64) -> Vec<Case> {
@@ -100,6 +100,8 @@ impl Prop for C09 {
         for a in 0..nv { v.push(case(&[("surface", "argv".into()), ("words", a.to_string()), ("seed", rng.next().to_string())]));
             for b in 0..nv { v.push(case(&[("surface", "argv".into()), ("words", format!("{},{}", a, b)), ("seed", rng.next().to_string())])); } }
         for _ in 0..(if th { 10000 } else { 1500 }) { let n = rng.range(3, 9); let ws: Vec<String> = (0..n).map(|_| if rng.chance(1, 2) { rng.below(12).to_string() } else { rng.below(nv).to_string() }).collect(); v.push(case(&[("surface", "argv".into()), ("words", ws.join(",")), ("seed", rng.next().to_string())])); }
+        // the same tool with a terminal on standard input (nobody types): it must still terminate
+        for cmd in ["decrypt", "encrypt", "pass-decrypt", "extract-pub", "change-pass"] { for pw in ["wrong", "unset"] { v.push(case(&[("surface", "tty".into()), ("cmd", cmd.into()), ("pw", pw.into()), ("seed", rng.next().to_string())])); } }
         for i in 0..(if th { 40 } else { 12 }) { v.push(case(&[("surface", "heap".into()), ("mode", (if i % 2 == 0 { "key" } else { "pass" }).into()), ("seed", rng.next().to_string())])); }
         v
     }
@@ -189,6 +191,24 @@ impl Prop for C09 {
                 o.tags.push(format!("skstr -> {}", o.impl_obs));
                 if r.is_none() { fail_crash(&mut o, "EncodedSk::try_from / unlock_private_key"); }
                 else if o.impl_obs != mr { o.disagreement = Some(format!("impl '{}' model '{}' on {:?}", o.impl_obs, mr, s)); }
+            }
+            "tty" => {
+                use crate::cli::*;
+                let fx = fixtures();
+                let p = crate::gen::payload(3, 30);
+                let ct = imp::key_encrypt(&fx.alice.sk, &fx.alice.pk, &fx.bob.pk, None, None, &p, &NOSCRIPT).out;
+                let pct = imp::pass_encrypt(b"right", &rng.bytes(32), &p, &NOSCRIPT).out;
+                let env: Vec<(String, String)> = if get(c, "pw") == "wrong" { vec![("KESTREL_PASSWORD".into(), "not the password".into()), ("KESTREL_NEW_PASSWORD".into(), "n".into())] } else { vec![] };
+                let world = World { files: vec![("in.bin".into(), ct), ("pin.bin".into(), pct), ("p.txt".into(), p.clone()), ("kr.txt".into(), keyring(&[(&fx.alice, true), (&fx.bob, true)]).into_bytes())], env, stdin: vec![] };
+                let args: Vec<String> = match get(c, "cmd") { "decrypt" => sv(&["decrypt", "in.bin", "-t", "bob", "-o", "out.bin", "-k", "kr.txt", "--env-pass"]), "encrypt" => sv(&["encrypt", "p.txt", "-t", "bob", "-f", "alice", "-o", "out.bin", "-k", "kr.txt", "--env-pass"]),
+                    "pass-decrypt" => sv(&["password", "decrypt", "pin.bin", "-o", "out.bin", "--env-pass"]), "extract-pub" => sv(&["key", "extract-pub", &fx.bob.enc_sk, "--env-pass"]), _ => sv(&["key", "change-pass", &fx.bob.enc_sk, "--env-pass"]) };
+                let obs = run_kestrel_tty(&world, &args, 8);
+                o.impl_obs = format!("exit={:?} timeout={} 'Key unlock failed' lines={}", obs.exit, obs.timed_out, obs.stderr.matches("Key unlock failed").count());
+                o.model_obs = "terminates with exit 1".into();
+                o.nontrivial = Some(format!("tty/{}/{}", get(c, "cmd"), get(c, "pw"))); o.tags.push(format!("tty {} -> exit {:?}", get(c, "cmd"), obs.exit));
+                let label = format!("kestrel {} with a terminal on stdin and KESTREL_PASSWORD {}", args.join(" ").chars().take(70).collect::<String>(), get(c, "pw"));
+                if obs.timed_out { o.oracle_fail = Some(("no-hang".into(), format!("{}: still running after 8 s ({} unlock attempts so far) — it never terminates", label, obs.stderr.matches("Key unlock failed").count()))); }
+                else if obs.exit != Some(1) || !obs.error_line() { o.oracle_fail = Some(("exit-1-with-error-line".into(), format!("{}: exit {:?} stderr {:?}", label, obs.exit, obs.stderr.chars().take(160).collect::<String>()))); }
             }
             "argv" => {
                 use crate::cli::*;
